@@ -97,14 +97,19 @@ def _structure(
         # Recurse
         # The function given to keep(path, fun) is also seen as a plain reference to fun (without a path),
         # right after the kept call. Traversing it again would attach the nodes kept inside fun to the
-        # caller of keep, as if they were its direct dependencies.
-        kept_funs = set()
+        # caller of keep, as if they were its direct dependencies. (Only that reference: a call of fun
+        # that the body makes later is a real call.)
+        previous: Optional[FunctionInteractions] = None
         sub_calls: List[Tuple[List[Node], FunctionInteractions]] = []
         for sub_fis in fis_.parsed_body:
-            if sub_fis.store_path is None and sub_fis.fun_path in kept_funs:
+            follows_its_keep = (
+                previous is not None
+                and previous.store_path is not None
+                and previous.fun_path == sub_fis.fun_path
+            )
+            previous = sub_fis
+            if sub_fis.store_path is None and follows_its_keep:
                 continue
-            if sub_fis.store_path is not None:
-                kept_funs.add(sub_fis.fun_path)
             sub_calls.append((traverse(sub_fis), sub_fis))
         sub_nodes: List[Node] = sorted(
             list(
